@@ -2,9 +2,10 @@
 
 Proof phase: Props/C04.v (label order, the phased sort/annihilation loop,
 label-level associativity, Koszul algebra, the generated Koszul routine).
-Correspondence: Gen.OpOrder vs FermionicOperator, Model.Oddpos vs the real
-resolve_combined_oddpos on stub operands, Gen.PhasePerm vs
-calc_phase_permutation.
+Correspondence: Gen.OpOrder vs FermionicOperator, Model.Oddpos AND the function
+generated from the current source (Gen.OddposGen, tr/gen_oddpos.py; theorems
+Props/C04e.v) vs the real resolve_combined_oddpos on stub operands,
+Gen.PhasePerm vs calc_phase_permutation.
 Oracle (the property itself, on the implementation): random fermionic networks
 contracted along every pairwise order with all the variations the property
 names; all routes must agree exactly, and agree with an independent dense
@@ -27,6 +28,17 @@ Definition res_eqb (r : result) (e : option (bool * list op)) : bool :=
   | _, _ => false
   end.
 Definition lbl_eqb (a b : op) : bool := list_eqb Z.eqb (fst a) (fst b) && Bool.eqb (snd a) (snd b).
+'''
+# the function generated from the current source of resolve_combined_oddpos (own cases file: the hand-model
+# tie above keeps evaluating when Gen/OddposGen.v is missing because the translator refused the source)
+IMPORTS_GEN = 'From SV Require Import Gen.OpOrder Gen.OddposGen.\n'
+PREAMBLE_GEN = '''
+Definition gen_eqb (g : gen_result) (e : option (bool * list op)) : bool :=
+  match g, e with
+  | GenRaise, None => true
+  | GenDone s w, Some (s', w') => Bool.eqb s s' && list_eqb op_eq w w'
+  | _, _ => false
+  end.
 '''
 
 
@@ -627,7 +639,7 @@ def run(ctx):
 
     # ---- tie 2: Model.Oddpos vs the real resolve_combined_oddpos on stubs
     cases = gen_resolve_cases(rng, 3000 if ctx.thorough else 500)
-    exprs2, meta2 = [], []
+    exprs2, meta2, exprs2g = [], [], []
     cov = {'parity_and_odd_true': 0, 'parity_and_odd_false': 0, 'swap': 0, 'annihilate_sign': 0, 'annihilate_nosign': 0,
            'raise': 0, 'empty': 0}
     for (l, r, p, regime) in cases:
@@ -635,6 +647,10 @@ def run(ctx):
         e = 'None' if got is None else '(Some (%s, %s))' % (gbool(got[0]), g_ops(got[1]))
         exprs2.append('res_eqb (resolve_raw %s %s %s) %s && res_eqb (resolve_raw_idx %s %s %s) %s' % (
             g_ops(l), g_ops(r), gbool(p), e, g_ops(l), g_ops(r), gbool(p), e))
+        # generated function: once with exactly the fuel the termination theorem names ((|l|+|r|)^2 + 1), once with more
+        nlab = len(l) + len(r)
+        exprs2g.append('gen_eqb (resolve_combined_oddpos_gen %d%%nat %s %s %s) %s && gen_eqb (resolve_combined_oddpos_gen %d%%nat %s %s %s) %s' % (
+            nlab * nlab + 1, g_ops(l), g_ops(r), gbool(p), e, nlab * nlab + 7, g_ops(l), g_ops(r), gbool(p), e))
         meta2.append((l, r, p, got))
         cov['parity_and_odd_true' if (p and len(r) % 2) else 'parity_and_odd_false'] += 1
         cov['raise'] += got is None
@@ -655,6 +671,15 @@ def run(ctx):
     elif bad2:
         tie_broken += ['Model.Oddpos.resolve disagrees with resolve_combined_oddpos on left=%r right=%r left_parity=%r (implementation: %r)'
                        % meta2[i] for i in bad2[:6]]
+
+    # ---- tie 2g: the function GENERATED from the current source (Gen.OddposGen) vs the real routine, same inputs
+    ctx.count(len(exprs2g))
+    bad2g = common.run_cases(ctx, 'resolvegen', IMPORTS_GEN, PREAMBLE_GEN, exprs2g)
+    if bad2g is None:
+        tie_broken.append('cases.v (Gen.OddposGen vs resolve_combined_oddpos) did not evaluate')
+    elif bad2g:
+        tie_broken += ['Gen.OddposGen.resolve_combined_oddpos_gen disagrees with resolve_combined_oddpos on left=%r right=%r '
+                       'left_parity=%r (implementation: %r)' % meta2[i] for i in bad2g[:6]]
 
     # ---- tie 3: Gen.PhasePerm vs calc_phase_permutation: all permutations of <= 5 axes x all parity vectors
     exprs3, meta3 = [], []
@@ -715,12 +740,16 @@ def run(ctx):
     ctx.broken += tie_broken
     if broken and not found:
         ctx.violation('proof obligation or tie of C04 no longer checks', {'broken': ctx.broken}, found_input=False)
-    ctx.extra['tie'] = {'oporder_cases': n_op, 'resolve_cases': len(exprs2), 'phaseperm_cases': len(exprs3)}
+    ctx.extra['tie'] = {'oporder_cases': n_op, 'resolve_cases': len(exprs2), 'phaseperm_cases': len(exprs3),
+                        'oddpos_gen_cases': len(exprs2g),
+                        'oddpos_gen_disagreements': None if bad2g is None else len(bad2g),
+                        'oddpos_gen_translator': 'tr/gen_oddpos.py -> Gen/OddposGen.v (Props/C04e.v)'}
     ctx.extra['branches'] = cov
     ctx.extra['oracle'] = stats
     ctx.coverage['rule'] = (
         'OpOrder: exhaustive over 6-7 labels of each kind (int, tuple, str) x dual; resolve: random label lists of the three kinds '
-        '(sorted halves, unsorted, with conjugate pairs, with non-conjugate duplicates, empty) x left parity, compared with both models; '
+        '(sorted halves, unsorted, with conjugate pairs, with non-conjugate duplicates, empty) x left parity, compared with both models '
+        'and with the function generated from the current source (fuel n^2+1 and n^2+7); '
         'PhasePerm: every permutation of <= 5 axes x every parity vector, plus perm=None; oracle: random networks of 2-4 tensors '
         '(chain, triangle, ring, star, chord, double bonds, with/without dangling legs) over Z2/U1/Z2Z2/U1U1, random bond orientation, '
         'charges, sparsity, labels of one kind per network (some dual), EVERY order of connected pairwise contractions x random '
